@@ -18,12 +18,12 @@ HEAD = {
  "C12": "`barInfo_decodes/restores/decode_off`, `cam_injective`, `enumerate_exact`, `capabilities_wellformed`, `capWalk_length_le`",
  "C13": "`access_ok_iff`, `fail_no_access`, `access_ok_exact`, `read_consistent_untorn` (any closure, any schedule), contract necessity examples",
  "C14": "`decode_encode`, `encode_matches_spec`, chain shapes, `any_completion_order`, `wf_run`",
- "C15": "`stream_exactly_once_in_order`, `at_most_one_outstanding`, `repost_only_when_consumed`, `step_faults`",
+ "C15": "`stream_exactly_once_in_order`, `at_most_one_outstanding`, `repost_only_when_consumed`, `step_faults`; `EvQueueRefines` (event/console queue ⊑ `AbsQueue`)",
  "C16": "`sendChain_bytes`, `receiveComplete_spec`, `inv_run`, `buffers_never_lost`",
  "C17": "`ring_refines_fifo`, `send_keeps_window`, `one_credit_request`, `lossfree`, `arith_panic_free`",
  "C18": "`frame`, `request_listening/not_listening`, `unknown_no_effect`, `recv_after_peer_shutdown`, `posted_step`",
- "C19": "`same_token_again` (concrete queue), `stocking_fresh_queue`, `owning_exactly_once_in_order`, `poll_spec`, `input_exactly_once_in_order`",
- "C20": "request encoders vs spec tables, `order_prefix`, `ok_only_if_all_expected`, `backing_never_released_while_attached`, `pcmChunks_concat/bounds`, `pcm_xfer_any_device`, `pcm_xfer_no_device_errors`, EDID `preferred_eq_spec`, `no_panic`",
+ "C19": "`same_token_again` (concrete queue), `stocking_fresh_queue`, `owning_exactly_once_in_order`, `poll_spec`, `input_exactly_once_in_order`; `EvQueueRefines`",
+ "C20": "request encoders vs spec tables, `order_prefix`, `ok_only_if_all_expected`, `backing_never_released_while_attached`, `pcmChunks_concat/bounds`, `pcm_xfer_any_device`, `pcm_xfer_no_device_errors`, EDID `preferred_eq_spec`, `no_panic`; `CmdQueueRefines` (command queue ⊑ `AbsQueue`)",
 }
 def k(n):
     return f"{n:,}".replace(",", " ")
